@@ -219,13 +219,22 @@ def do_big_reads_writes(rec, hub, rng):
     fd = hub.fd
     M = "large-arrays"
     U = gen.big_universe(fd, rng)
+    if rng.random() < 0.6:  # one LONG dimension (hundreds of items) whose items are not stored in ascending order
+        n_long = int(rng.integers(150, 700))
+        if rng.random() < 0.5:
+            U["b"] = fd.Dimension(letter="b", name=gen.NAMES["b"], items=[int(q) for q in 1000 + rng.permutation(n_long)], dtype=int)
+        else:
+            U["a"] = fd.Dimension(letter="a", name=gen.NAMES["a"], items=[f"prod{int(q):04d}" for q in rng.permutation(n_long)], dtype=str)
+        U["c"] = fd.Dimension(letter="c", name=gen.NAMES["c"], items=[f"c{i}" for i in range(int(rng.integers(2, 6)))])
     la = tuple(str(q) for q in rng.permutation(list("abcd"))[: int(rng.integers(2, 5))])
     v = gen.relayout(gen.big_values(rng, gen.shape_of(U, la), "dyadic"), rng)
     x = fd.FlodymArray(dims=gen.dimset(fd, U, la), values=v.copy(order="K"))
     # one single item, one subset (random order) on two different dimensions
     l1, l2 = la[0], la[-1]
     it1 = U[l1].items[int(rng.integers(0, len(U[l1].items)))]
-    pos2 = rng.permutation(len(U[l2].items))[: max(1, len(U[l2].items) // 3)].tolist()
+    pos2 = rng.permutation(len(U[l2].items))[: max(1, int(len(U[l2].items) * rng.choice([0.33, 0.6, 0.95, 1.0])))].tolist()
+    if rng.random() < 0.3:
+        pos2 = sorted(pos2)
     sub_ = fd.Dimension(letter=l2.upper(), name="sub " + U[l2].name, items=[U[l2].items[p_] for p_ in pos2])
     key = {l1: it1, U[l2].name: sub_}
     ref = np.take(np.take(v, U[l1].items.index(it1), axis=0), pos2, axis=len(la) - 2)
@@ -357,6 +366,25 @@ def do_errors(hub, U, letters, rng):
                         t[k] = 1.0
                     except Exception:
                         pass
+    # keys of a NEIGHBOURING type that a conversion to the dimension's declared type would turn into an item:
+    # fractional years, years as text, numbers for numeric-looking text labels (all unknown labels: must be refused)
+    yr = fd.Dimension(letter="t", name="Time", items=[int(q) for q in rng.permutation(np.arange(2000, 2000 + int(rng.integers(3, 7))))], dtype=int)
+    tx = fd.Dimension(letter="s", name="Scenario", items=["1", "2", "10", "2000"], dtype=str)
+    ut = fd.Dimension(letter="u", name="untyped years", items=[1990, 1995, 2000])
+    near = fd.FlodymArray(dims=fd.DimensionSet(dim_list=[yr, tx, ut]), values=gen.values_one("dyadic", rng, (len(yr.items), 4, 3)))
+    y0 = yr.items[0]
+    for k in ({"t": y0 + 0.5}, {"t": y0 + 0.9}, {"t": str(y0)}, {"Time": np.float64(y0) + 0.25}, {"t": [yr.items[1], yr.items[0] + 0.5]}, {"t": [str(y0)]}, {"t": True},
+              {"s": 1}, {"s": 2000}, {"s": 10.0}, {"Scenario": [1, 2]}, {"s": np.int64(2)}, {"u": 1990.5}, {"u": "1990"}, {"t": y0, "s": 1}, {"t": float(y0) + 0.5, "s": "1"},
+              {"t": float(y0)}, {"t": np.int64(y0)}, {"u": 1995.0}):  # the last three name items (equal as numbers): judged as reads
+        try:
+            near[k]
+        except Exception:
+            pass
+        t = near.copy()
+        try:
+            t[k] = 3.0
+        except Exception:
+            pass
     # ambiguity: two dimensions sharing an item
     d1 = fd.Dimension(letter="p", name="first", items=["x", "y", "both"])
     d2 = fd.Dimension(letter="q", name="second", items=["both", "z"])
